@@ -10,10 +10,14 @@ func verif_forall[T any](f func(T) bool) bool { return true }
 
 var _ = govalidator.TagMap
 
-// SpecValidated: what the `valid:"..."` struct tags guarantee about presence - derived by govc from the
+// SpecValidated: what validation guarantees about presence: the `valid:"..."` struct tags - derived by govc from the
 // tags in the current source on every run (required pointer members are non-nil, recursively; required
-// strings and lists are non-empty); all other validators are dropped (a weaker predicate).
-func SpecValidated(c *Config) bool   { return verif_validated(c) }
+// strings and lists are non-empty; all other validators are dropped: a weaker predicate), plus the one
+// hand-coded rule that matters for presence: the https scheme comes with a tls section (checked against
+// (*Configuration).validate below).
+func SpecValidated(c *Config) bool {
+	return verif_validated(c) && (c.Configuration.Sbi.Scheme != "https" || c.Configuration.Sbi.Tls != nil)
+}
 func verif_validated(c *Config) bool { return true }
 
 func specIsErrors(err error) bool {
@@ -37,6 +41,7 @@ func specServiceName(s string) bool {
 //@ func (*Configuration).validate [C20]
 //@   requires c != nil && govalidator.TagMap != nil
 //@   ensures (!forall i int :: 0 <= i && i < len(c.ServiceNameList) ==> specServiceName(c.ServiceNameList[i])) ==> result1 != nil
+//@   ensures c.Sbi != nil && c.Sbi.Scheme == "https" && c.Sbi.Tls == nil ==> result1 != nil
 //@   modifies mapof(govalidator.TagMap)
 //@   loop 0: invariant 0 <= ITER && ITER <= len(c.ServiceNameList)
 //@   loop 0: invariant forall i int :: 0 <= i && i < ITER ==> specServiceName(c.ServiceNameList[i])
